@@ -8,7 +8,11 @@ namespace NeoModel.Mempool
 theorem U256_pos : 0 < U256 := by unfold U256; exact Nat.two_pow_pos _
 
 /-- what `getPayerFee` returns satisfies the fee-entry invariant -/
-theorem getPayerFee_entry {L : List Tx} {fees : Payer → Option Fee} (hf : FeesOk L fees) (p : Payer) (feer : Feer) :
+theorem addW_eq (a b : Nat) (h : a + b < U256) : addW a b = a + b := by
+  unfold addW; exact Nat.mod_eq_of_lt h
+
+theorem getPayerFee_entry {L : List Tx} {fees : Payer → Option Fee} (hf : FeesOk L fees) (p : Payer) (feer : Feer)
+    (hF : FeerOk feer) :
     FeeEntry L p (some (getPayerFee p fees feer).1) ∧
       (((getPayerFee p fees feer).2 = true ∧ fees p = some (getPayerFee p fees feer).1) ∨
        ((getPayerFee p fees feer).2 = false ∧ fees p = none ∧
@@ -21,7 +25,7 @@ theorem getPayerFee_entry {L : List Tx} {fees : Payer → Option Fee} (hf : Fees
     rw [hp] at h; simp only [FeeEntry] at h
     refine ⟨?_, Or.inr ⟨rfl, rfl, rfl⟩⟩
     simp only [FeeEntry]
-    exact ⟨h.symm, Nat.zero_le _, Nat.mod_lt _ U256_pos⟩
+    exact ⟨h.symm, Nat.zero_le _, hF p.1 p.2⟩
 
 theorem feesOk_upd {L : List Tx} {fees : Payer → Option Fee} (hf : FeesOk L fees) (p : Payer) (f : Fee)
     (h : FeeEntry L p (some f)) : FeesOk L (upd fees p (some f)) := by
@@ -205,7 +209,7 @@ theorem checkTxConflicts_err {U : Tx → Prop} (hw : WF U) {mp : Pool} (hi : Inv
 
 /-- `checkTxConflicts` on a pool satisfying the invariant: what success means. -/
 theorem checkTxConflicts_ok {U : Tx → Prop} (hw : WF U) {mp : Pool} (hi : Inv U mp) {t : Tx} (ht : U t) (feer : Feer)
-    {mp1 : Pool} {rm : List Tx} (h : checkTxConflicts mp t feer = (mp1, .ok rm)) :
+    (hF : FeerOk feer) {mp1 : Pool} {rm : List Tx} (h : checkTxConflicts mp t feer = (mp1, .ok rm)) :
     ∃ actual : Fee,
       mp1 = { mp with fees := upd mp.fees (payerOf t) (some actual) } ∧
       FeeEntry mp.txs (payerOf t) (some actual) ∧
@@ -218,7 +222,7 @@ theorem checkTxConflicts_ok {U : Tx → Prop} (hw : WF U) {mp : Pool} (hi : Inv 
   unfold checkTxConflicts at h
   obtain ⟨s1a, s1b, s1c, s1d⟩ := scan1_spec hw hi t (if (getPayer t).2 then (payerOf t).2 else (payerOf t).1)
   simp only [s1a, Bool.false_eq_true, if_false] at h
-  obtain ⟨hent, hcase⟩ := getPayerFee_entry hi.fees (payerOf t) feer
+  obtain ⟨hent, hcase⟩ := getPayerFee_entry hi.fees (payerOf t) feer hF
   split at h
   · cases (Prod.mk.inj h).2
   · rename_i s hs2
@@ -283,17 +287,22 @@ theorem checkTxConflicts_ok {U : Tx → Prop} (hw : WF U) {mp : Pool} (hi : Inv 
             · exact e4 c hc
           simp only [FeeEntry] at hent
           obtain ⟨f1, f2, f3⟩ := hent
-          have hexp := expectedFeeSum_eq (payerOf t) rm mp.txs hi.list.nodup hsub hnd (by omega)
+          have hexp := expectedFeeSum_eq (payerOf t) rm mp.txs hi.list.nodup hsub hnd (by have := two_H256; omega)
+          have hS : sumFees (payerOf t) (mp.txs.filter (fun x => !(rm.map (·.id)).contains x.id))
+              ≤ (getPayerFee (payerOf t) mp.fees feer).1.feeSum := by
+            rw [f1]; exact sumFees_sublist _ List.filter_sublist
           rw [← f1, ← hrm] at hexp
           unfold checkBalance at hcb
           simp only at hcb
           rw [hexp] at hcb
+          rw [hrm] at hcb
           split at hcb
           · cases hcb
-          · split at hcb
+          · rename_i h1
+            rw [addW_eq _ _ (by have := two_H256; omega)] at hcb
+            split at hcb
             · cases hcb
-            · rename_i h1 h2
-              rw [hrm] at h2
+            · rename_i h2
               omega
 
 end NeoModel.Mempool
